@@ -153,6 +153,18 @@ fn run(ctx: &Ctx) -> Part {
                         continue;
                     }
                     check_fill(ctx, &mut acc, cfg, r, len);
+                    // every seventh case also after a run-time orientation change that keeps the logical size
+                    if n % 7 == 3 {
+                        let o2 = if n % 2 == 0 { cfg.orient ^ 4 } else { (cfg.orient & 4) | ((cfg.orient + 2) & 3) };
+                        let hist = [Op::SetOrientation(o2), Op::FillContiguous { r, colors: Colors::Coded { base: 0x0300, len } }];
+                        acc.evaluations += 1;
+                        acc.transitions += 2;
+                        acc.traces += 1;
+                        if let Err((f, _)) = check_history(cfg, &hist, &Checks::ALL) {
+                            acc.violation(violation(ctx, cfg, &hist, "all", &f));
+                        }
+                        acc.count("after_orientation_change", 1);
+                    }
                     n += 1;
                     if n == 5000 && acc.samples.len() < 2 {
                         acc.sample(json!({"cfg": cfg, "history": [Op::FillContiguous { r, colors: Colors::Coded { base: 0x0300, len } }]}));
